@@ -310,6 +310,8 @@ def _impl_one(lab, dt, layout="C", mask=None, size=None):
                 flags |= 4
     if not np.array_equal(a, before) or (m is not None and not np.array_equal(m, mbefore)):
         flags |= 8
+    if m is not None and out.shape == a.shape and not np.array_equal(out[~m], a[~m]):
+        flags |= 64
     outi = out.astype(np.int64)
     if not np.array_equal(outi.astype(out.dtype), out):
         flags |= 32                                       # non-integral / unrepresentable output value
@@ -439,7 +441,8 @@ _FLAGS = {1: "output dtype/shape differs from the input's", 2: "filling twice di
           4: "binary input disagrees with scipy.ndimage.binary_fill_holes (4-connected)",
           8: "an input array (labels or mask) was modified",
           16: "the same call repeated in the same process returned a different result",
-          32: "output values are not exactly representable integers of the input dtype"}
+          32: "output values are not exactly representable integers of the input dtype",
+          64: "pixels outside the mask were changed"}
 
 
 def check(ctx, cases, outs):
